@@ -30,11 +30,16 @@ type controllingSelector struct {
 	agent         *Agent
 	nominatedPair *CandidatePair
 	log           logging.LeveledLogger
+	// confirmedNomination is the highest nomination value whose success
+	// response has been applied (renomination): responses to older
+	// renominations that arrive later must not move the selection back.
+	confirmedNomination *uint32
 }
 
 func (s *controllingSelector) Start() {
 	s.startTime = time.Now()
 	s.nominatedPair = nil
+	s.confirmedNomination = nil
 }
 
 func (s *controllingSelector) isNominatable(c Candidate) bool {
@@ -204,9 +209,16 @@ func (s *controllingSelector) HandleSuccessResponse(
 		// If this is a renomination request (has nomination value), always update the selected pair
 		// If it's a standard nomination (no value), only set if no pair is selected yet
 		if pendingRequest.nominationValue != nil {
-			s.log.Infof("Renomination success response received for pair %s (nomination value: %d), switching to this pair",
-				pair, *pendingRequest.nominationValue)
-			s.agent.setSelectedPair(pair)
+			if s.confirmedNomination != nil && *pendingRequest.nominationValue <= *s.confirmedNomination {
+				s.log.Tracef("Ignore late renomination success response for pair %s (nomination value: %d, already at %d)",
+					pair, *pendingRequest.nominationValue, *s.confirmedNomination)
+			} else {
+				s.log.Infof("Renomination success response received for pair %s (nomination value: %d), switching to this pair",
+					pair, *pendingRequest.nominationValue)
+				value := *pendingRequest.nominationValue
+				s.confirmedNomination = &value
+				s.agent.setSelectedPair(pair)
+			}
 		} else if selectedPair == nil {
 			s.agent.setSelectedPair(pair)
 		}
